@@ -306,7 +306,10 @@ TReadCauses(ts, msg, outlen, n, k) ==
   \cup (IF msglen < TAGLEN THEN {"T_R_SHORT"} ELSE {})
   \cup (IF msglen >= TAGLEN /\ outlen < msglen - TAGLEN THEN {"T_R_OUTBUF"} ELSE {})
   \cup (IF NIsMax(n) THEN {"T_EXHAUSTED"} ELSE {})
-  \cup (IF msglen >= TAGLEN /\ ~AeadOpens(k, n, Empty, c) THEN {"T_R_AUTH"} ELSE {})
+  \* the cipher is consulted only for a call that is in phase and has a usable nonce: an out-of-phase or
+  \* exhausted call fails with its documented state error, whatever the message (C09, C11)
+  \cup (IF msglen >= TAGLEN /\ ~(ts.oneway /\ ts.role = "i") /\ ~NIsMax(n) /\ ~AeadOpens(k, n, Empty, c)
+        THEN {"T_R_AUTH"} ELSE {})
 
 TRead(ts, msg, outlen) ==
   LET d == RecvDir(ts) cs == CS(ts, d)
